@@ -129,3 +129,15 @@ Example hypotheses_decided_on_a_carrier :
   order_ok_b Z.leb Z.eqb [15; 20; 0; 10]%Z = true /\ distinct_b Z.eqb [20; 0; 10]%Z = true /\
   distinct_b Z.eqb [20; 0; 20]%Z = false.
 Proof. vm_compute. repeat split. Qed.
+
+(* a float parameter below a dict-valued attribute: with the path followers as they are the query raises
+   (finding float-inside-dict-raises); with proposed_fixes/C20-dict-attribute-paths it is interpolated.
+   One statement for both variants, decided by the flag regenerated from the source *)
+Definition gd (t a : Z) : tree Z := TO [("t", TF t); ("g", TO [("params", TD [("a", TF a)])])].
+Example dict_parameter :
+  interp_at Z.leb Z.eqb (fun z => z) left_value TF true [gd 0 100; gd 10 150; gd 20 200] ["t"] (TF 15%Z) =
+  if dictok then ONew (gd 15 150) else OErr.
+Proof. vm_compute. reflexivity. Qed.
+Example dict_known_point_either_way :
+  interp_at Z.leb Z.eqb (fun z => z) left_value TF true [gd 0 100; gd 10 150; gd 20 200] ["t"] (TF 10%Z) = OSame 1.
+Proof. vm_compute. reflexivity. Qed.
